@@ -794,6 +794,11 @@ func (pm *Portmapper) makeReply(xid uint32, status uint32, data []byte) []byte {
 		}
 	} else {
 		binary.Write(&buf, binary.BigEndian, status)
+		if status == PROG_MISMATCH {
+			// RFC 1831: PROG_MISMATCH carries the lowest and highest supported version
+			binary.Write(&buf, binary.BigEndian, uint32(2))
+			binary.Write(&buf, binary.BigEndian, uint32(4))
+		}
 	}
 
 	return buf.Bytes()
